@@ -597,6 +597,24 @@ class ExprMixin:
         return self.ev_list(node.elts, st, lambda s, vs: k(s, VTup(vs)))
 
     def ev_List(self, node, st, k):
+        if any(isinstance(e, ast.Starred) for e in node.elts):
+            # [a, *xs, b]: built left to right by append / extend
+            def build(s, acc, rest):
+                if not rest:
+                    return k(s, acc)
+                e = rest[0]
+                if isinstance(e, ast.Starred):
+                    def ext(s2, v):
+                        self.list_extend(acc, self.iter_to_list(v, s2), s2)
+                        return build(s2, acc, rest[1:])
+                    return self.ev(e.value, s, ext)
+
+                def app(s2, v):
+                    self.list_append(acc, v, s2)
+                    return build(s2, acc, rest[1:])
+                return self.ev(e, s, app)
+            return build(st, st.alloc(HList(None, None, z3.IntVal(0))), list(node.elts))
+
         def fin(s, vs):
             if not vs:
                 return k(s, s.alloc(HList(None, None, z3.IntVal(0))))
